@@ -9,8 +9,15 @@ Oracle (property relation on the implementation's own outputs, independent numpy
   sum_s p(s)/Z * O.apply(state, basis)[s]  ==  Re tr(rho_normalised . Op)
 with rho built from the implementation's psi(space) / rho(space, space), Op a dense matrix built by Kronecker
 products of Pauli matrices (Z = diag(-1,+1) for bit 0/1, <0|Y|1> = -i), one real number per row, the sample
-tensor bit-identical before/after apply, absolute=True equal to |.| of absolute=False pointwise."""
-import math, time
+tensor bit-identical before/after apply, absolute=True equal to |.| of absolute=False pointwise.
+
+Histories on the SAME objects (seed round 3): one set of observable instances, one sample tensor object and one state object are
+used again and again; between two evaluations the harness applies one legal mutation (refill of the very same tensor in place in
+every way torch offers, chains advanced with overwrite=True, every way of changing the parameters of the live state, other states
+on the same tensor, the same observables on another chain length ...).  After each mutation the oracle is the one above with rho
+rebuilt by numpy alone from the CURRENT parameters read from the live object, and the rows decoded from the CURRENT contents of
+the tensor."""
+import math, time, copy, os
 import numpy as np
 import gen
 
@@ -20,7 +27,20 @@ RULE = ("state types positive/complex/mixed, nv 1..5 in both tiers (quick: fewer
         "NeighbourInteraction for c = 1..n and both boundary conditions, applied to all 2^n basis states (weighted exactly by "
         "probability/Z), to a random batch with repeats, to a single row, to non-contiguous (strided) double tensors and to a random batch "
         "of ~2500 rows, and (first nv = 2 or 3 state of every state type, every observable) to a batch of 20001..26000 rows of odd length; a case is (state type, sizes, parameter draw); "
-        "non-trivial := all biases non-zero and (state is positive or its phase network is non-zero)")
+        "non-trivial := all biases non-zero and (state is positive or its phase network is non-zero); "
+        "HISTORIES on the same objects (a block of fixed ones that does not depend on the seed runs FIRST, then random ones from the seed after the main stream): "
+        "one pool of observable instances (X, Y, Z with absolute off/on, ZZ for every c and both boundaries) shared by all histories, states of all three types, "
+        "nv 1..4; scripts: 'buffer' (ONE sample tensor object - plain / view of a larger tensor / non-contiguous / returned by generate_hilbert_space or sample - "
+        "evaluated, changed in place, evaluated again: copy_, slice / row assignment, .data.copy_, numpy view, write through the base tensor, in-place row "
+        "permutation, row swap, flip of all spins, the library's flip_spin, zero_+add_, out= of a torch op, bernoulli_, chain advanced with "
+        "sample(overwrite=True), Observable.sample / statistics with initial_state=buffer and overwrite=True, resize_, set_), 'params' (ONE state object whose "
+        "parameters are changed between evaluations on the same tensor: reinitialize_parameters, rbm.initialize_parameters, re-bound nn.Parameter, replaced "
+        "network, .data =, .data.copy_, copy_ under no_grad, numpy view, in-place arithmetic, single entries, vector_to_parameters, load_state_dict, "
+        "state.load(file), optimizer step, short fit, deep copy changed separately), 'stream' (the basis streamed chunk by chunk through one re-used buffer, "
+        "sum_s p(s) value(s) accumulated), 'objects' (several states / chain lengths alternating on the same tensor and the same observables; fresh tensors "
+        "created and deleted in a loop; tensors returned by apply scribbled over by the caller); after every step: numpy rho from the current parameters, "
+        "sum_s p(s)/Z apply(s) == Re tr(rho Op) whenever the tensor holds every basis state once, per-row values equal to those of a fresh full-basis "
+        "evaluation of the same state, tensor unchanged by apply, earlier returned values not altered by later calls")
 ASSUMPTIONS = ["torch elementwise kernels implement the real functions up to rounding",
                "states with |effective energy| > 300 are skipped (double overflow in |psi|^2 products), counted as skipped_overflow"]
 
@@ -332,7 +352,725 @@ def check_state(ctx, kind, nv, nh, na, params, with_model=True, very_long=False)
     ctx.traces += 1
 
 
+# =========================================================================== histories on the SAME objects
+# Seed round 3 (C08c): SigmaX / SigmaY took their single-spin-flip copies from a memo keyed by the IDENTITY of the sample
+# tensor; "evaluate -> refill the same tensor in place -> evaluate again" gave the values of the old rows.  The class: any
+# cache / memo / stored handle (in the observables, in the states' importance-sampling functions, module level or per
+# instance) that goes stale when the caller legally changes something between two evaluations on the same objects.
+PNAMES = {"positive": ("weights", "visible_bias", "hidden_bias"), "complex": ("weights", "visible_bias", "hidden_bias"),
+          "mixed": ("weights_W", "weights_U", "visible_bias", "hidden_bias", "aux_bias")}
+
+
+def nets_of(kind):
+    return ("rbm_am",) if kind == "positive" else ("rbm_am", "rbm_ph")
+
+
+def live_params(s, kind):
+    """numpy copies of the CURRENT parameters, read through the public attributes of the live object"""
+    out = {}
+    for net in nets_of(kind):
+        rbm = getattr(s, net)
+        out[net[4:]] = [np.array(getattr(rbm, k).detach().cpu().numpy(), dtype=float, copy=True) for k in PNAMES[kind]]
+    return out
+
+
+def np_rho(kind, P, sp):
+    """dense unnormalised density matrix rho[s, s'] from the raw parameters, numpy only"""
+    f = lambda W, b, c: sp @ b + gen.softplus(sp @ W.T + c).sum(-1)
+    if kind == "mixed":
+        W, U, b, c, d = P["am"]
+        Wp, Up, bp, cp, _ = P["ph"]
+        fa, fp = f(W, b, c), f(Wp, bp, cp)
+        gam = 0.5 * (fa[:, None] + fa[None, :]) + 0.5j * (fp[:, None] - fp[None, :])
+        ua, up = sp @ U.T, sp @ Up.T
+        arg = 0.5 * (ua[:, None, :] + ua[None, :, :]) + d + 0.5j * (up[:, None, :] - up[None, :, :])
+        return np.exp(gam + np.log(1.0 + np.exp(arg)).sum(-1))
+    psi = np.exp(0.5 * f(*P["am"])).astype(complex)
+    if kind == "complex":
+        psi = psi * np.exp(0.5j * f(*P["ph"]))
+    return np.outer(psi, np.conj(psi))
+
+
+_OBS_CACHE = {}
+
+
+def obs_table(n):
+    """[(name, constructor, dense operator or None, name of the non-absolute twin or None)] for a chain of n sites"""
+    if n in _OBS_CACHE:
+        return _OBS_CACHE[n]
+    from qucumber.observables import SigmaX, SigmaY, SigmaZ, NeighbourInteraction
+    tab = []
+    for name, cls, M in (("SigmaX", SigmaX, PX), ("SigmaY", SigmaY, PY), ("SigmaZ", SigmaZ, PZ)):
+        tab.append((name, (lambda cls=cls: cls(absolute=False)), mean_site(M, n), None))
+        tab.append((name + "(absolute)", (lambda cls=cls: cls(absolute=True)), None, name))
+    for pbc in (False, True):
+        for c in range(1, n + 1):
+            tab.append(("NeighbourInteraction(pbc=%s,c=%d)" % (pbc, c),
+                        (lambda pbc=pbc, c=c: NeighbourInteraction(periodic_bcs=pbc, c=c)), zz_op(n, c, pbc), None))
+    _OBS_CACHE[n] = tab
+    return tab
+
+
+def obs_pool(ctx):
+    """ONE instance per observable for the whole run (shared by all histories, all states, all chain lengths)"""
+    if not hasattr(ctx, "_c08_pool"):
+        ctx._c08_pool = {}
+    return ctx._c08_pool
+
+
+class Box:
+    """one live state object + the numpy view of what it currently is"""
+
+    def __init__(self, kind, nv, nh, na, s):
+        self.kind, self.nv, self.nh, self.na, self.s = kind, nv, nh, na, s
+        self.sp = gen.all_states(nv)
+        self.pw = (2 ** np.arange(nv)[::-1]).astype(float)
+        self.refresh()
+
+    def refresh(self):
+        """re-read the parameters of the live object; everything derived is rebuilt with numpy"""
+        self.P = live_params(self.s, self.kind)
+        rho = np_rho(self.kind, self.P, self.sp)
+        d = np.abs(np.diag(rho))
+        self.rho_n = rho / np.trace(rho)
+        self.w = np.real(np.diag(rho)) / float(np.real(np.trace(rho)))
+        self.sc = np.maximum(1.0, np.abs(rho).max(axis=0) / d)      # per-row magnitude of the importance ratios
+        self.finite = bool(np.all(np.isfinite(rho)) and np.all(d > 0) and np.all(np.isfinite(self.sc)))
+        self.ref = None
+
+    def plist(self):
+        return {k: gen.plist(*v) for k, v in self.P.items()}
+
+
+class Hist:
+    def __init__(self, ctx, spec):
+        self.ctx, self.spec = ctx, spec
+        self.rng = np.random.Generator(np.random.PCG64(int(spec["hseed"])))
+        self.step, self.log, self.kept = 0, [], []
+        self.only = spec.get("only_ops")
+
+    def bits(self, n):
+        return int(self.rng.integers(0, n))
+
+    def tseed(self):
+        import torch
+        torch.manual_seed(int(self.rng.integers(0, 2 ** 31 - 1)))
+
+    def values(self, shape, bias=False):
+        x = self.rng.normal(size=shape) * 0.8
+        if bias:
+            x[np.abs(x) < 1e-2] = 0.37
+        return x
+
+    def case(self, box, name, **extra):
+        c = {"state": box.kind, "nv": box.nv, "nh": box.nh, "na": box.na, "observable": name, "history": self.spec, "step": self.step,
+             "steps_so_far": self.log[-14:], "params": box.plist()}
+        c.update(extra)
+        return c
+
+    def mutation_failed(self, label, e):
+        """a mutation operator is the CALLER's action (torch / fit / load ...): when it raises, that is not C08's clause"""
+        self.ctx.count("history: mutation operator raised, skipped (not required here): " + label.split(" [")[0])
+
+
+def new_state(H, kind, nv, nh=None, na=None):
+    nh = int(H.rng.integers(1, nv + 2)) if nh is None else nh
+    na = (int(H.rng.integers(1, nv + 2)) if na is None else na) if kind == "mixed" else 0
+    if kind == "mixed":
+        am = [H.values((nh, nv)), H.values((na, nv)), H.values(nv, True), H.values(nh, True), H.values(na, True)]
+        ph = [H.values((nh, nv)), H.values((na, nv)), H.values(nv, True), H.values(nh, True), np.zeros(na)]
+        params = {"am": gen.plist(*am), "ph": gen.plist(*ph)}
+    else:
+        params = {"am": gen.plist(H.values((nh, nv)), H.values(nv, True), H.values(nh, True))}
+        if kind == "complex":
+            params["ph"] = gen.plist(H.values((nh, nv)), H.values(nv, True), H.values(nh, True))
+    return Box(kind, nv, nh, na, build(kind, nv, nh, na, params))
+
+
+def decode_rows(box, buf):
+    a = np.array(buf.detach().cpu().numpy(), dtype=float)
+    if a.ndim != 2 or a.shape[1] != box.nv or not np.all((a == 0) | (a == 1)):
+        return None
+    return (a @ box.pw).astype(int)
+
+
+def h_apply(H, box, O, name, buf, fresh=False, what=None):
+    """O.apply(state, buf): no exception, tensor unchanged, one real per row.  Returns (tensor, float array copy) or (None, None)."""
+    import torch
+    ctx = H.ctx
+    before = buf.clone()
+    meta = (buf.dtype, tuple(buf.shape), tuple(buf.stride()), bool(buf.requires_grad))
+    ok, out = ctx.call((what or name) + ".apply", H.case(box, name), lambda: O.apply(box.s, buf))
+    if not ok:
+        return None, None
+    same = bool(torch.equal(buf, before)) and meta == (buf.dtype, tuple(buf.shape), tuple(buf.stride()), bool(buf.requires_grad))
+    if not same:
+        ctx.require(name + ": sample tensor unchanged by apply", False, H.case(box, name, rows_before=before.tolist()[:16]))
+    good = (isinstance(out, torch.Tensor) and tuple(out.shape) == (buf.shape[0],) and out.dtype in (torch.float64, torch.float32)
+            and not torch.is_complex(out))
+    if not good:
+        ctx.require(name + ": one real number per sample row", False, H.case(box, name), {"shape": list(getattr(out, "shape", []))})
+        return None, None
+    return out, np.array(out.detach().cpu().numpy(), dtype=float, copy=True)
+
+
+def reference(H, box):
+    """fresh observable instances on fresh full-basis tensors (what check_state does), verified by the trace identity
+    against the numpy rho of the CURRENT parameters"""
+    import torch
+    ctx = H.ctx
+    ref = {}
+    for name, ctor, Op, twin in obs_table(box.nv):
+        t, out = h_apply(H, box, ctor(), name, torch.tensor(box.sp, dtype=torch.double), what=name + " (fresh tensor, fresh observable)")
+        if out is None:
+            continue
+        ref[name] = out
+        if Op is not None:
+            want, got = float(np.trace(box.rho_n @ Op).real), float(np.dot(box.w, out))
+            if not abs(got - want) <= 1e-8 + 1e-7 * abs(want):
+                ctx.require(name + ": sum_s p(s)/Z * apply(s) == Re tr(rho Op)", False,
+                            H.case(box, name, tensor="fresh full-basis tensor, fresh observable instance"), {"estimator_mean": got, "trace": want})
+    return ref
+
+
+def evaluate(H, box, buf, label, acc=None, rowcheck=True):
+    """Every observable of the pool applied to (the live state, the very tensor object buf) in its CURRENT condition."""
+    import torch
+    ctx = H.ctx
+    H.step += 1
+    H.log.append(label)
+    ctx.count("history evaluations")
+    if not box.finite:
+        ctx.count("history: skipped_overflow")
+        return None
+    rows = decode_rows(box, buf)
+    if rows is None:
+        ctx.count("history: buffer does not hold basis states after a mutation (harness), step skipped")
+        return None
+    N = len(box.sp)
+    full = len(rows) == N and np.array_equal(np.sort(rows), np.arange(N))
+    pool = obs_pool(ctx)
+    outs, kept = {}, []
+    shown = rows.tolist() if len(rows) <= 32 else "%d rows" % len(rows)
+    for name, ctor, Op, twin in obs_table(box.nv):
+        if name not in pool:
+            pool[name] = ctor()
+        t, out = h_apply(H, box, pool[name], name, buf)
+        if out is None:
+            continue
+        outs[name] = out
+        kept.append([name, t, out.copy(), False])
+        if Op is not None and full:
+            want, got = float(np.trace(box.rho_n @ Op).real), float(np.dot(box.w[rows], out))
+            if not abs(got - want) <= 1e-8 + 1e-7 * abs(want):
+                ctx.require(name + ": sum_s p(s)/Z * apply(s) == Re tr(rho Op)", False, H.case(box, name, rows_now=shown, after=label),
+                            {"estimator_mean": got, "trace": want})
+        if twin is not None and twin in outs:
+            if not np.allclose(out, np.abs(outs[twin]), rtol=1e-12, atol=0):
+                ctx.require(twin + ": absolute=True is the pointwise absolute value", False, H.case(box, name, rows_now=shown, after=label))
+        if acc is not None and Op is not None:
+            acc[name] = acc.get(name, 0.0) + float(np.dot(box.w[rows], out))
+    # values handed out by the previous evaluation are still what they were (unless the harness itself scribbled over them)
+    for name, t, val, scribbled in H.kept:
+        if not scribbled and not np.array_equal(np.array(t.detach().cpu().numpy(), dtype=float), val):
+            ctx.require(name.replace("(absolute)", "") + ": the values returned by an earlier apply are not altered by a later apply", False,
+                        H.case(box, name, after=label), {"then": val[:4].tolist(), "now": t.detach().cpu().numpy()[:4].tolist()})
+    H.kept = kept
+    if H.step % 2 == 0:
+        # the caller edits the tensors apply returned (they are the caller's): later evaluations must not depend on them
+        for k in kept:
+            try:
+                k[1].detach().fill_(-7.0)
+                k[3] = True
+            except Exception:
+                pass
+        ctx.count("history: returned tensors overwritten by the caller")
+    if rowcheck:
+        first = box.ref is None
+        if first:
+            box.ref = reference(H, box)
+        for name, out in outs.items():
+            if name not in box.ref:
+                continue
+            sc = box.sc[rows] if name.startswith(("SigmaX", "SigmaY")) else np.ones(len(rows))
+            want = box.ref[name][rows]
+            if not np.allclose(out / sc, want / sc, rtol=1e-9, atol=1e-11):
+                bad = int(np.argmax(np.abs(out - want) / sc))
+                ctx.require(name.replace("(absolute)", "") + ": value of a row does not depend on the rest of the batch", False,
+                            H.case(box, name, rows_now=shown, after=label, batch="the same tensor object, evaluated before with other contents / other parameters"),
+                            {"row": bad, "basis_state": int(rows[bad]), "got": float(out[bad]), "value_of_that_state_on_a_fresh_tensor": float(want[bad])})
+        if first:
+            # the reference ran on other tensors: evaluate the buffer once more (nothing changed: same values) so that it is
+            # again the most recently evaluated tensor when the next mutation comes
+            for name, ctor, Op, twin in obs_table(box.nv):
+                t, out = h_apply(H, box, pool[name], name, buf)
+                if out is not None and name in outs and not np.allclose(out, outs[name], rtol=1e-9, atol=1e-11):
+                    ctx.require(name.replace("(absolute)", "") + ": value of a row does not depend on the rest of the batch", False,
+                                H.case(box, name, rows_now=shown, after=label + "; evaluated a second time with nothing changed"))
+    return outs
+
+
+# --------------------------------------------------------------------------- mutation operators: the sample tensor (same object)
+def other_perm(H, box, buf, B=None):
+    """basis rows (as a float array) that differ from what buf holds now; the whole basis in a new order when B is None"""
+    N = len(box.sp)
+    cur = decode_rows(box, buf)
+    for _ in range(20):
+        idx = H.rng.permutation(N) if B is None else H.rng.integers(0, N, size=B)
+        if B is not None and len(idx) != buf.shape[0]:
+            break
+        if cur is None or len(cur) != len(idx) or not np.array_equal(cur, idx):
+            break
+    return box.sp[idx].copy()
+
+
+def sample_ops(H, box, layout):
+    """[(label, fn(buf))]: each changes the CONTENTS of the tensor object buf (never re-binds it)"""
+    import torch
+    from qucumber.observables.pauli import flip_spin
+    T = lambda a: torch.tensor(np.asarray(a), dtype=torch.double)
+    n = box.nv
+    pool = obs_pool(H.ctx)
+
+    def rows_assign(buf):
+        new = other_perm(H, box, buf)
+        for r in range(buf.shape[0]):
+            buf[r] = T(new[r])
+
+    def numpy_view(buf):
+        buf.numpy()[...] = other_perm(H, box, buf)
+
+    def through_base(buf):
+        b = layout.get("base")
+        if b is None:
+            buf.view(-1)[:] = T(other_perm(H, box, buf)).view(-1)      # another view of the same storage
+        else:
+            layout["write_base"](T(other_perm(H, box, buf)))
+
+    def permute_rows(buf):
+        perm = H.rng.permutation(buf.shape[0])
+        if np.array_equal(perm, np.arange(len(perm))):
+            perm = np.roll(perm, 1)
+        buf.copy_(buf[torch.tensor(perm, dtype=torch.long)])
+
+    def swap_two(buf):
+        i, j = (H.rng.choice(buf.shape[0], size=2, replace=False) if buf.shape[0] > 1 else (0, 0))
+        tmp = buf[int(i)].clone(); buf[int(i)] = buf[int(j)]; buf[int(j)] = tmp
+
+    def chain(buf):
+        H.tseed()
+        box.s.sample(k=int(H.rng.integers(1, 4)), initial_state=buf, overwrite=True)
+
+    def obs_sample(buf):
+        # Observable.sample with the caller's chain: advances buf in place and returns the values of its NEW rows
+        for name in ("SigmaX", "SigmaY", "SigmaZ"):
+            H.tseed()
+            O = pool.get(name) or obs_table(n)[[t[0] for t in obs_table(n)].index(name)][1]()
+            ok, out = H.ctx.call(name + ".sample(initial_state=buffer, overwrite=True)", H.case(box, name), lambda: O.sample(box.s, k=1, initial_state=buf, overwrite=True))
+            rows = decode_rows(box, buf)
+            if ok and rows is not None and box.ref is not None and name in box.ref and isinstance(out, torch.Tensor) and tuple(out.shape) == (len(rows),):
+                sc = box.sc[rows] if name != "SigmaZ" else np.ones(len(rows))
+                got, want = np.array(out.detach().numpy(), dtype=float), box.ref[name][rows]
+                if not np.allclose(got / sc, want / sc, rtol=1e-9, atol=1e-11):
+                    H.ctx.require(name + ": value of a row does not depend on the rest of the batch", False,
+                                  H.case(box, name, rows_now=rows.tolist()[:32], after="Observable.sample(k=1, initial_state=buffer, overwrite=True): values of the advanced chain",
+                                         batch="the same tensor object, evaluated before with other contents"))
+
+    def obs_statistics(buf):
+        H.tseed()
+        O = pool.get("SigmaX") or obs_table(n)[0][1]()
+        O.statistics(box.s, num_samples=3 * buf.shape[0], burn_in=1, steps=1, initial_state=buf, overwrite=True)
+
+    def shrink(buf):
+        buf.resize_(buf.shape[0] - 1, n)
+
+    def grow_refill(buf):
+        buf.resize_(len(box.sp), n)
+        buf.copy_(T(other_perm(H, box, buf)))
+
+    ops = [("copy_", lambda buf: buf.copy_(T(other_perm(H, box, buf)))),
+           ("slice assignment buf[:] = rows", lambda buf: buf.__setitem__(slice(None), T(other_perm(H, box, buf)))),
+           ("chain advanced with sample(initial_state=buffer, overwrite=True)", chain),
+           (".data.copy_ (no version bump)", lambda buf: buf.data.copy_(T(other_perm(H, box, buf)))),
+           ("flip_spin(i, buffer) (the library's in-place helper)", lambda buf: flip_spin(H.bits(n), buf)),
+           ("written through a numpy view (no version bump)", numpy_view),
+           ("Observable.sample(initial_state=buffer, overwrite=True)", obs_sample),
+           ("row-by-row assignment", rows_assign),
+           ("in-place row permutation", permute_rows),
+           ("bernoulli_", lambda buf: (H.tseed(), buf.bernoulli_(0.5))),
+           ("written through the base tensor / another view", through_base),
+           ("all spins flipped in place (sub_(1).abs_())", lambda buf: buf.sub_(1).abs_()),
+           ("Observable.statistics(initial_state=buffer, overwrite=True)", obs_statistics),
+           ("zero_().add_(rows)", lambda buf: buf.zero_().add_(T(other_perm(H, box, buf)))),
+           ("two rows swapped", swap_two),
+           ("out= of a torch op", lambda buf: torch.index_select(T(other_perm(H, box, buf)), 0, torch.arange(buf.shape[0]), out=buf)),
+           ("copy_ of the whole basis again", lambda buf: buf.copy_(T(other_perm(H, box, buf))))]
+    if layout.get("resizable"):
+        ops += [("resize_ to one row less", shrink), ("resize_ back and refilled", grow_refill),
+                ("set_ to another storage", lambda buf: buf.set_(T(other_perm(H, box, buf))))]
+    return ops
+
+
+def make_buffer(H, box, variant):
+    """(the tensor object all evaluations of a history are run on, layout info).  It holds the whole basis."""
+    import torch
+    N, n = len(box.sp), box.nv
+    first = torch.tensor(box.sp[H.rng.permutation(N)], dtype=torch.double)
+    if variant == "plain":
+        return first, {"resizable": True}
+    if variant == "view of a larger tensor":
+        base = torch.zeros(N + 3, n, dtype=torch.double)
+        buf = base[2:2 + N]
+        buf.copy_(first)
+        return buf, {"base": base, "write_base": lambda t: base.__setitem__(slice(2, 2 + N), t)}
+    if variant == "every second row of a larger tensor":
+        base = torch.ones(2 * N, n, dtype=torch.double)
+        buf = base[::2]
+        buf.copy_(first)
+        return buf, {"base": base, "write_base": lambda t: base.__setitem__(slice(0, 2 * N, 2), t)}
+    if variant == "column-major storage":
+        buf = torch.zeros(n, N, dtype=torch.double).t()
+        buf.copy_(first)
+        return buf, {}
+    if variant == "returned by generate_hilbert_space":
+        try:
+            buf = box.s.generate_hilbert_space()
+            if decode_rows(box, buf) is not None and tuple(buf.shape) == (N, n) and buf.dtype == torch.double:
+                return buf, {"resizable": True}
+        except Exception:
+            pass
+        H.ctx.count("generate_hilbert_space unusable (C19's clause; not required here)")
+        return first, {"resizable": True}
+    if variant == "returned by sample":
+        H.tseed()
+        try:
+            buf = box.s.sample(k=2, num_samples=N)
+            if decode_rows(box, buf) is not None and tuple(buf.shape) == (N, n) and buf.dtype == torch.double:
+                return buf, {"resizable": True}
+        except Exception:
+            pass
+        H.ctx.count("sample unusable (C05's clause; not required here)")
+        return first, {"resizable": True}
+    raise ValueError(variant)
+
+
+BUFFER_VARIANTS = ["plain", "view of a larger tensor", "returned by generate_hilbert_space", "every second row of a larger tensor",
+                   "column-major storage", "returned by sample"]
+
+
+def run_ops(H, box, buf, ops, evaluate_after):
+    for label, fn in ops:
+        if H.only is not None and label not in H.only:
+            continue
+        try:
+            fn(buf)
+        except Exception as e:
+            H.mutation_failed(label, e)
+            continue
+        H.ctx.count("history op: " + label)
+        evaluate_after(label)
+
+
+def script_buffer(H):
+    spec = H.spec
+    box = new_state(H, spec["kind"], spec["nv"])
+    buf, layout = make_buffer(H, box, spec.get("buffer", "plain"))
+    evaluate(H, box, buf, "initial contents (%s)" % spec.get("buffer", "plain"))
+    ops = sample_ops(H, box, layout)
+    if spec.get("shuffle"):
+        head = [ops[i] for i in H.rng.permutation(17)]
+        ops = head[:spec.get("n_ops", len(head))] + ops[17:]
+    run_ops(H, box, buf, ops, lambda label: evaluate(H, box, buf, label))
+    return box
+
+
+# --------------------------------------------------------------------------- mutation operators: the parameters of the live state
+def param_ops(H, box):
+    """[(label, fn())]: each changes the parameters of the live state box.s in a way the library offers or tolerates"""
+    import torch
+    from qucumber.rbm import BinaryRBM, PurificationRBM
+    kind, s, nv = box.kind, box.s, box.nv
+    T = lambda a: torch.tensor(np.asarray(a), dtype=torch.double)
+    nets = nets_of(kind)
+    pick_net = lambda: nets[H.bits(len(nets))]
+    is_bias = lambda k: k.endswith("bias")
+
+    def fresh_values(rbm, net):
+        """new values with the shapes the live network has now"""
+        out = {}
+        for k in PNAMES[kind]:
+            shape = tuple(getattr(rbm, k).shape)
+            out[k] = np.zeros(shape) if (kind == "mixed" and net == "rbm_ph" and k == "aux_bias") else H.values(shape, is_bias(k))
+        return out
+
+    def each_param(fn, all_nets=True):
+        for net in (nets if all_nets else (pick_net(),)):
+            rbm = getattr(s, net)
+            for k, v in fresh_values(rbm, net).items():
+                fn(rbm, k, v)
+
+    def rebind(rbm, k, v):
+        setattr(rbm, k, torch.nn.Parameter(T(v), requires_grad=False))
+
+    def nograd_copy(rbm, k, v):
+        with torch.no_grad():
+            getattr(rbm, k).copy_(T(v))
+
+    def arith(rbm, k, v):
+        with torch.no_grad():
+            getattr(rbm, k).mul_(-0.7).add_(T(v) * 0.5)
+
+    def replace_net():
+        net = pick_net()
+        old = getattr(s, net)
+        nh2 = int(H.rng.integers(1, nv + 2))
+        new = PurificationRBM(nv, nh2, box.na, gpu=False) if kind == "mixed" else BinaryRBM(nv, nh2, gpu=False)
+        for k, v in fresh_values(new, net).items():
+            getattr(new, k).data = T(v)
+        setattr(s, net, new)
+
+    def entries():
+        for net in nets:
+            rbm = getattr(s, net)
+            rbm.visible_bias.data[H.bits(nv)] += 1.5
+            w = getattr(rbm, PNAMES[kind][0])
+            w.data[H.bits(w.shape[0]), H.bits(w.shape[1])] -= 1.25
+            if kind == "mixed":
+                rbm.weights_U.data[H.bits(rbm.weights_U.shape[0]), H.bits(nv)] += 0.9
+
+    def vec_to_params():
+        for net in nets:
+            rbm = getattr(s, net)
+            ps = list(rbm.parameters())
+            vec = T(H.values(sum(p.numel() for p in ps)))
+            torch.nn.utils.vector_to_parameters(vec, ps)
+            if kind == "mixed" and net == "rbm_ph":
+                rbm.aux_bias.data = torch.zeros_like(rbm.aux_bias)
+
+    def donor_state():
+        d = copy.deepcopy(s)
+        for net in nets:
+            rbm = getattr(d, net)
+            for k, v in fresh_values(rbm, net).items():
+                getattr(rbm, k).data = T(v)
+        return d
+
+    def load_sd():
+        d = donor_state()
+        for net in nets:
+            getattr(s, net).load_state_dict(getattr(d, net).state_dict())
+
+    def load_file():
+        path = os.path.join(H.ctx.scratch, "c08_hist_%d.pt" % H.step)
+        donor_state().save(path)
+        s.load(path)
+
+    def opt_step():
+        for net in nets:
+            ps = list(getattr(s, net).parameters())
+            for p in ps:
+                p.grad = T(H.values(tuple(p.shape)))
+            torch.optim.SGD(ps, lr=0.3).step()
+            for p in ps:
+                p.grad = None
+            if kind == "mixed" and net == "rbm_ph":
+                getattr(s, net).aux_bias.data.zero_()
+
+    def short_fit():
+        H.tseed()
+        data = T(H.rng.integers(0, 2, size=(12, nv)))
+        kw = dict(epochs=1, pos_batch_size=4, neg_batch_size=4, k=1, lr=0.1, progbar=False)
+        if kind != "positive":
+            bases = np.array([[str(c) for c in H.rng.choice(["X", "Y", "Z"], size=nv, p=[0.2, 0.2, 0.6])] for _ in range(12)])
+            kw["input_bases"] = bases
+        import warnings
+        with warnings.catch_warnings():
+            warnings.simplefilter("ignore")
+            s.fit(data, **kw)
+
+    def reinit():
+        H.tseed()
+        s.reinitialize_parameters()
+
+    def init_one():
+        H.tseed()
+        getattr(s, pick_net()).initialize_parameters()
+
+    return [(".data.copy_(new) on every parameter (no version bump)", lambda: each_param(lambda rbm, k, v: getattr(rbm, k).data.copy_(T(v)))),
+            ("every parameter re-bound: rbm.<name> = nn.Parameter(new)", lambda: each_param(rebind)),
+            ("copy_ under no_grad on every parameter", lambda: each_param(nograd_copy)),
+            ("reinitialize_parameters()", reinit),
+            (".data = new on every parameter", lambda: each_param(lambda rbm, k, v: setattr(getattr(rbm, k), "data", T(v)))),
+            ("load_state_dict from another network", load_sd),
+            ("a whole network replaced (state.rbm_xx = new RBM, other num_hidden)", replace_net),
+            ("written through numpy views of the parameters (no version bump)",
+             lambda: each_param(lambda rbm, k, v: getattr(rbm, k).detach().numpy().__setitem__(Ellipsis, v))),
+            ("optimizer step (SGD on given gradients)", opt_step),
+            ("rbm.initialize_parameters() on one network", init_one),
+            ("single entries edited through .data", entries),
+            ("state.load(file saved by another state)", load_file),
+            ("in-place arithmetic under no_grad (mul_, add_)", lambda: each_param(arith)),
+            ("torch.nn.utils.vector_to_parameters", vec_to_params),
+            ("parameters of ONE network re-bound", lambda: each_param(rebind, all_nets=False)),
+            ("short fit (1 epoch)", short_fit),
+            (".data.copy_(new) on ONE network", lambda: each_param(lambda rbm, k, v: getattr(rbm, k).data.copy_(T(v)), all_nets=False))]
+
+
+def script_params(H):
+    import torch
+    spec = H.spec
+    box = new_state(H, spec["kind"], spec["nv"])
+    buf, layout = make_buffer(H, box, spec.get("buffer", "plain"))
+    evaluate(H, box, buf, "initial parameters")
+    ops = param_ops(H, box)
+    if spec.get("shuffle"):
+        ops = [ops[i] for i in H.rng.permutation(len(ops))][:spec.get("n_ops", len(ops))]
+
+    def after(label):
+        box.refresh()
+        box.nh = int(box.P["am"][0].shape[0])
+        evaluate(H, box, buf, label)
+    run_ops(H, box, None, [(l, (lambda buf_, f=f: f())) for l, f in ops], after)
+    # a deep copy changed on its own: the copy gives the values of ITS parameters, the original keeps its own
+    if H.only is None:
+        try:
+            twin = copy.deepcopy(box.s)
+        except Exception as e:
+            H.mutation_failed("copy.deepcopy(state)", e)
+            return box
+        b2 = Box(box.kind, box.nv, box.nh, box.na, twin)
+        for net in nets_of(box.kind):
+            getattr(twin, net).visible_bias.data.add_(torch.tensor(H.values(box.nv, True)))
+        b2.refresh()
+        evaluate(H, b2, buf, "a deep copy of the state with other visible biases, same tensor")
+        evaluate(H, box, buf, "the original state again, same tensor")
+        H.ctx.count("history op: deep copy changed separately")
+    return box
+
+
+def script_stream(H):
+    """The whole basis streamed chunk by chunk through ONE re-used buffer; sum_s p(s)/Z value(s) accumulated over the chunks."""
+    import torch
+    spec = H.spec
+    box = new_state(H, spec["kind"], spec["nv"])
+    N, n = len(box.sp), box.nv
+    T = lambda a: torch.tensor(np.asarray(a), dtype=torch.double)
+    for p in range(2):
+        B = int(2 ** H.rng.integers(0, max(1, n)))           # 1 .. N/2 rows, divides N
+        base = torch.zeros(B + 2, n, dtype=torch.double)
+        buf = base[1:1 + B]
+        fills = [("copy_", lambda x: buf.copy_(T(x))), ("slice assignment", lambda x: buf.__setitem__(slice(None), T(x))),
+                 ("numpy view", lambda x: buf.numpy().__setitem__(Ellipsis, x)), (".data.copy_", lambda x: buf.data.copy_(T(x))),
+                 ("through the base tensor", lambda x: base.__setitem__(slice(1, 1 + B), T(x)))]
+        order = H.rng.permutation(N)
+        acc = {}
+        for c in range(N // B):
+            label, fill = fills[(c + p) % len(fills)]
+            fill(box.sp[order[c * B:(c + 1) * B]])
+            evaluate(H, box, buf, "pass %d chunk %d of %d rows refilled by %s" % (p, c, B, label), acc=acc, rowcheck=False)
+            H.ctx.count("history op: stream chunk refilled by " + label)
+        if not box.finite:
+            continue
+        for name, ctor, Op, twin in obs_table(n):
+            if Op is None or name not in acc:
+                continue
+            want = float(np.trace(box.rho_n @ Op).real)
+            if not abs(acc[name] - want) <= 1e-8 + 1e-7 * abs(want):
+                H.ctx.require(name + ": sum_s p(s)/Z * apply(s) == Re tr(rho Op)", False,
+                              H.case(box, name, after="the basis streamed through one re-used buffer of %d rows (order %r)" % (B, order.tolist()[:32])),
+                              {"estimator_mean": acc[name], "trace": want})
+    return box
+
+
+def script_objects(H):
+    """Several live states (all types; another chain length) alternating on the SAME tensor and the SAME observable instances; one of
+    them changed in between; fresh tensors created and deleted in a loop."""
+    import torch
+    spec = H.spec
+    nv = spec["nv"]
+    kinds = [spec["kind"]] + [k for k in ("positive", "complex", "mixed") if k != spec["kind"]]
+    boxes = [new_state(H, k, nv) for k in kinds] + [new_state(H, spec["kind"], nv)]       # last: same type and (maybe) sizes, other parameters
+    nv2 = nv + 1 if nv < 4 else nv - 1
+    other = new_state(H, kinds[H.bits(3)], nv2)
+    buf, layout = make_buffer(H, boxes[0], spec.get("buffer", "plain"))
+    buf2, _ = make_buffer(H, other, "plain")
+    T = lambda a: torch.tensor(np.asarray(a), dtype=torch.double)
+    for rnd in range(2):
+        for b in boxes:
+            evaluate(H, b, buf, "state #%d (%s) on the shared tensor, round %d" % (boxes.index(b), b.kind, rnd))
+        evaluate(H, other, buf2, "the same observables on a chain of %d sites (%s)" % (nv2, other.kind))
+        evaluate(H, boxes[0], buf, "back to state #0 on the shared tensor")
+        # change one of the states and the tensor at once
+        b = boxes[1 + H.bits(len(boxes) - 1)]
+        for net in nets_of(b.kind):
+            getattr(b.s, net).hidden_bias.data.copy_(T(H.values(tuple(getattr(b.s, net).hidden_bias.shape), True)))
+        b.refresh()
+        buf.copy_(T(other_perm(H, boxes[0], buf)))
+        evaluate(H, b, buf, "state #%d after hidden_bias.data.copy_, tensor refilled by copy_" % boxes.index(b))
+        evaluate(H, boxes[0], buf, "state #0 on the refilled tensor")
+        H.ctx.count("history op: states alternating on one tensor")
+    # fresh tensors, each deleted before the next is made (a new tensor may get the id / the memory of a deleted one)
+    b, seen, reused = boxes[0], set(), 0
+    for k in range(5):
+        t = T(b.sp[H.rng.permutation(len(b.sp))])
+        reused += (id(t) in seen) or (t.data_ptr() in seen)
+        seen.update((id(t), t.data_ptr()))
+        evaluate(H, b, t, "fresh tensor #%d (the previous one was deleted)" % k)
+        del t
+    H.kept = []
+    H.ctx.count("history: fresh tensor re-used the id or memory of a deleted one", int(reused))
+    return boxes[0]
+
+
+SCRIPTS = {"buffer": script_buffer, "params": script_params, "stream": script_stream, "objects": script_objects}
+
+FIXED_HISTORIES = [
+    {"script": "buffer", "kind": "positive", "nv": 2, "buffer": "plain", "hseed": 810001},
+    {"script": "params", "kind": "complex", "nv": 2, "buffer": "plain", "hseed": 810002},
+    {"script": "buffer", "kind": "mixed", "nv": 2, "buffer": "returned by generate_hilbert_space", "hseed": 810003},
+    {"script": "stream", "kind": "complex", "nv": 3, "hseed": 810004},
+    {"script": "params", "kind": "mixed", "nv": 2, "buffer": "view of a larger tensor", "hseed": 810005},
+    {"script": "objects", "kind": "mixed", "nv": 2, "buffer": "plain", "hseed": 810006},
+    {"script": "buffer", "kind": "complex", "nv": 3, "buffer": "view of a larger tensor", "hseed": 810007},
+    {"script": "params", "kind": "positive", "nv": 3, "buffer": "returned by generate_hilbert_space", "hseed": 810008},
+    {"script": "stream", "kind": "mixed", "nv": 2, "hseed": 810009},
+    {"script": "stream", "kind": "positive", "nv": 1, "hseed": 810010},
+    {"script": "buffer", "kind": "positive", "nv": 1, "buffer": "every second row of a larger tensor", "hseed": 810011},
+    {"script": "objects", "kind": "complex", "nv": 3, "buffer": "column-major storage", "hseed": 810012},
+]
+
+
+def run_history(ctx, spec):
+    """One history; deterministic in spec (own generator, own torch seeds), so a failing one can be replayed from its spec."""
+    import torch
+    H = Hist(ctx, spec)
+    torch.manual_seed(int(spec["hseed"]))
+    n0 = len(ctx.failures)
+    ctx.count("history script:" + spec["script"]); ctx.count("history state:" + spec["kind"]); ctx.count("history nv:%d" % spec["nv"])
+    box = SCRIPTS[spec["script"]](H)
+    ctx.case({"history": spec["script"], "state": spec["kind"], "nv": spec["nv"], "buffer": spec.get("buffer"), "hseed": spec["hseed"]},
+             nontrivial=True)
+    if len(ctx.failures) == n0:
+        ctx.traces += 1
+
+
+def random_history_spec(ctx):
+    rng = ctx.rng
+    script = str(rng.choice(["buffer", "params", "stream", "objects"], p=[0.4, 0.3, 0.15, 0.15]))
+    nv = int(rng.choice([1, 2, 3, 4], p=[0.15, 0.35, 0.3, 0.2]))
+    spec = {"script": script, "kind": str(rng.choice(["positive", "complex", "mixed"])), "nv": nv,
+            "buffer": str(rng.choice(BUFFER_VARIANTS)), "hseed": int(rng.integers(1, 2 ** 31 - 1)), "shuffle": True}
+    if not ctx.thorough:
+        spec["n_ops"] = 8
+    if script == "objects" and nv == 4:
+        spec["nv"] = 3
+    return spec
+
+
 def run(ctx):
+    # fixed histories on the same objects: independent of VERIF_SEED, always first
+    for spec in FIXED_HISTORIES:
+        run_history(ctx, dict(spec))
     # nv 1..5 in both tiers (the property's range); the quick tier uses fewer draws
     plan = {1: 20, 2: 20, 3: 20, 4: 20, 5: 20} if ctx.thorough else {1: 6, 2: 6, 3: 6, 4: 5, 5: 4}
     for nv in (1, 2, 3, 4, 5):
@@ -346,6 +1084,9 @@ def run(ctx):
                 check_state(ctx, kind, nv, nh, na, params, very_long=(nv in (2, 3) and kind not in very_long_done(ctx)))
     # table-fed model: the observable layer alone, on the implementation's own psi / rho values
     table_cases(ctx)
+    # random histories on the same objects (after the main stream, whose draws for a given seed stay what they were)
+    for _ in range(24 if ctx.thorough else 8):
+        run_history(ctx, random_history_spec(ctx))
 
 
 def table_cases(ctx):
@@ -402,6 +1143,12 @@ def search(ctx, broken, budget):
 
 def replay(ctx, rec):
     case = rec.get("failing", {}).get("case", {})
+    if isinstance(case.get("history"), dict):
+        print("replay of the history", case["history"], "(failed at step", case.get("step"), "after", case.get("after"), ")")
+        run_history(ctx, dict(case["history"]))
+        for f in ctx.failures[:5]:
+            print("  fails:", f["what"], f["detail"][:200])
+        return
     if "params" not in case:
         print("replay: no stored case; re-running the generated cases")
         return run(ctx)
